@@ -441,6 +441,7 @@ def run(ctx: common.Ctx):
     cross_process(ctx, ctx.seed, min(n_x, n_graphs), pickles, keys, node_keys, seeds)
     eqfam.einsum_renamings(ctx, "key")
     eqfam.constants(ctx, "key")
+    eqfam.key_histories(ctx)
     ctx.broken = sorted(set(ctx.broken))[:40]
 
 
